@@ -606,3 +606,18 @@ add('C18', 'level-tally-by-two', RTF3, LVL_TALLY, "            omen_levels_count
 add('C18', 'level-tally-deleted', RTF3, LVL_TALLY, "            pass", 'fire', 'C18.R22')
 add('C11', 'level-tally-under-the-count', RTF3, LVL_TALLY, "            omen_levels_count[num_parsed_so_far] += 1", 'fire', 'C11.R23')
 add('C18', 'level-tally-counter-update', RTF3, LVL_TALLY, "            omen_levels_count.update([level])", 'silent')
+
+# ---- mutation sweep (third run): a walk emission site that appends the prefix and not the walk ------------------------------
+KB3 = 'lib_trainer/detection_rules/keyboard_walk.py'
+K_END = "            # Update the mask for the current run\n            section_list.append((''.join(cur_combo), \"K\"+str(len(cur_combo))))"
+add('C05', 'final-walk-piece-not-emitted', KB3, K_END, "            # Update the mask for the current run\n            pass", 'fire', 'C05.R2')
+
+# ---- mutation sweep (third run): the run scans of detect_digits / detect_alpha are siblings ------------------------------------
+DIGF = 'lib_trainer/detection_rules/digit_detection.py'
+ALPF = 'lib_trainer/detection_rules/alpha_detection.py'
+add('C05', 'digit-run-starts-inside-a-run', DIGF, "    is_run = False\n", "    is_run = True\n", 'fire', 'C05.R21')
+add('C05', 'digit-run-end-two-too-far', DIGF, "                    end_pos = pos - 1", "                    end_pos = pos + 1", 'fire', 'C05.R21')
+add('C05', 'digit-run-end-of-string-test-off', DIGF, "        if not value.isdigit() or pos == len(working_string) - 1:", "        if not value.isdigit() or pos == len(working_string) + 1:", 'fire', 'C05.R21')
+add('C05', 'alpha-run-end-test-and', ALPF, "        if not value.isalpha() or pos == len(working_string) - 1:", "        if not value.isalpha() and pos == len(working_string) - 1:", 'fire', 'C05.R21')
+add('C05', 'alpha-run-end-branch-inverted', ALPF, "                if value.isalpha():\n                    end_pos = pos", "                if not value.isalpha():\n                    end_pos = pos", 'fire', 'C05.R21')
+add('C05', 'digit-run-prefix-guard-respelled', DIGF, "                if start_pos !=0:", "                if start_pos != 0:", 'silent')
